@@ -1,15 +1,18 @@
 import Driver.Util
 import Driver.SemDrv
+import Driver.CfgDrv
 /-! `driver <model>`: reads harness output (cases) on stdin, prints one verdict line per case. -/
 open Driver
 
 def dispatch (model : String) (c : Case) : String :=
   match model with
   | "sem" => SemDrv.runCase c
+  | "cfg" => CfgDrv.runCase c
   | _ => s!"case {c.id} reject 0 unknown-model-{model}"
 
 def main (args : List String) : IO UInt32 := do
   let model := args.headD ""
+  if model == "cfg-keys" then IO.println CfgDrv.cfgKeys; return 0
   let stdin ← IO.getStdin
   let cases ← readCases stdin #[] none
   for c in cases do
